@@ -145,6 +145,8 @@ func init() {
 			{Name: "sizes", TShards: 6, Run: c05Sizes},
 			{Name: "distinct", TShards: 4, Run: c05Distinct},
 			{Name: "prefixes", Run: prefixUnit("newick", false, 0)},
+			{Name: "edges", Run: edgeUnit("newick")},
+			{Name: "fieldlens", TShards: 2, Run: lengthUnit("newick")},
 		},
 	})
 }
